@@ -206,3 +206,326 @@ Ltac eval_eqb :=
 Ltac flags :=
   repeat (rewrite ?fl_set_lor; rewrite ?tst_set, ?tst_clr by reflexivity);
   eval_eqb; cbn [orb andb negb].
+
+(* ================================================================ abstraction and invariant *)
+
+
+Definition abs_tm (e : entry) (k : timek) : tval :=
+  (sec (get_tm k (tms e)), nsec (get_tm k (tms e)), has e (time_flag k)).
+Definition abs_dv (d : dv) (f : bool) : Z * Z * bool := (g_major d, g_minor d, f).
+Definition abs (e : entry) : spec :=
+  mkSpec (mkSt (abs_tm e KA) (abs_tm e KB) (abs_tm e KC) (abs_tm e KM))
+    (uid (idv e), has e AE_SET_UID) (gid (idv e), has e AE_SET_GID) (ino (idv e), has e AE_SET_INO)
+    (size (idv e), has e AE_SET_SIZE) (nlink (idv e))
+    (Z.land AE_IFMT (mode e), has e AE_SET_FILETYPE) (Z.land PERM_MASK (mode e), has e AE_SET_PERM)
+    (abs_dv (dev e) (has e AE_SET_DEV)) (abs_dv (rdev e) (has e AE_SET_RDEV))
+    (symtype e) (fl_tst (enc e) 1) (fl_tst (enc e) 2)
+    (if has e AE_SET_HARDLINK then Some (linkname (str e)) else None)
+    (if has e AE_SET_SYMLINK then Some (linkname (str e)) else None)
+    (mkSs (pathname (str e)) (uname (str e)) (gname (str e)) (sourcepath (str e)) (fflags (str e)))
+    (sparse_r e) (xattrs e).
+
+Record Inv (e : entry) : Prop := mkInv {
+  inv_excl : has e AE_SET_HARDLINK && has e AE_SET_SYMLINK = false;
+  inv_none : has e AE_SET_HARDLINK = false -> has e AE_SET_SYMLINK = false -> linkname (str e) = None;
+  inv_dev : 0 <= comb (dev e) < 2^64;
+  inv_rdev : 0 <= comb (rdev e) < 2^64;
+  inv_rdev0 : has e AE_SET_RDEV = false -> rdev e = dv0;
+  inv_mode : Z.land (mode e) (Z.ones 32) = mode e;
+  inv_size : 0 <= size (idv e) < 2^63;
+  inv_ino : 0 <= ino (idv e) < 2^63;
+  inv_stat : stat_valid e = true -> stat_c e = stat_compute e
+}.
+
+Ltac unf := unfold step1, do_set_time, do_unset_time, do_set_id, do_unset_size, do_set_mode, do_set_perm, do_set_filetype,
+  do_acl_special, do_set_dev, do_set_rdev, do_enc, do_hardlink, do_symlink, do_link, do_link_to, do_str, do_sparse_add,
+  flag_on, flag_off, has, set_linkname, with_tms, with_idv, with_dev, with_rdev, with_mode, with_mode_acl, with_aset, with_str,
+  with_symtype, with_enc, with_sparse, with_xattrs.
+
+Ltac proj := cbn [fst snd tms idv dev rdev mode aset str symtype enc sparse_r xattrs stat_valid stat_c
+  sec nsec t_a t_b t_c t_m get_tm set_tm time_flag uid gid ino size nlink bd comb maj mnr
+  linkname pathname uname gname sourcepath fflags
+  s_times s_uid s_gid s_ino s_size s_nlink s_filetype s_perm s_dev s_rdev s_symtype s_encdata s_encmeta s_hard s_sym
+  s_strs s_sparse s_xattr st_a st_b st_c st_m st_get st_set ss_get ss_set ss_path ss_uname ss_gname ss_source ss_fflags].
+
+
+Ltac spx := unfold sp_step1, sp_set_time, sp_set_id, sp_set_mode, sp_set_dev, sp_time, sp_times, sp_uid, sp_gid, sp_ino, sp_size, sp_nlink,
+  sp_filetype, sp_perm, sp_dev, sp_rdev, sp_symtype, sp_encdata, sp_encmeta, sp_links, sp_str, sp_strs, sp_sparse, sp_xattr.
+Ltac go := unfold abs, abs_tm, abs_dv; spx; unf; proj; flags.
+
+Lemma mod_D_u32 : forall x, u32 (x mod FIX_NS_DIV) = x mod FIX_NS_DIV.
+Proof. intros. apply u32_id. pose proof (Z.mod_pos_bound x FIX_NS_DIV FIX_NS_DIV_pos). unfold FIX_NS_DIV in *. lia. Qed.
+
+Lemma A_time : forall e k t ns, abs (fst (step1 false e (OTime k t ns))) = fst (sp_step1 (abs e) (OTime k t ns)).
+Proof.
+  intros. cbn [step1 fst]. unfold do_set_time, norm_time. rewrite fix_ns_floor.
+  destruct k; go; rewrite mod_D_u32; reflexivity.
+Qed.
+
+Lemma A_unset_time : forall e k, abs (fst (step1 false e (OUnsetTime k))) = fst (sp_step1 (abs e) (OUnsetTime k)).
+Proof.
+  intros. cbn [step1 fst]. unfold do_unset_time, do_set_time. rewrite fix_ns_floor.
+  change (s64 0) with 0. change (0 / FIX_NS_DIV) with 0. change (0 mod FIX_NS_DIV) with 0. change (s64 (0+0)) with 0. change (u32 0) with 0.
+  destruct k; go; reflexivity.
+Qed.
+
+Lemma clamp0_max : forall v, clamp0 v = Z.max 0 v.
+Proof. intros. unfold clamp0. destruct (Z.ltb_spec v 0); lia. Qed.
+
+
+Lemma max0_s64_u64 : forall v, u64 (Z.max 0 (s64 v)) = Z.max 0 (s64 v).
+Proof. intros. apply u64_id. pose proof (s64_range v). lia. Qed.
+
+Lemma A_id : forall e k v, abs (fst (step1 false e (OId k v))) = fst (sp_step1 (abs e) (OId k v)).
+Proof.
+  intros. cbn [step1 fst]. destruct k; go; rewrite ?clamp0_max, ?max0_s64_u64; reflexivity.
+Qed.
+
+Lemma A_unset_size : forall e, abs (fst (step1 false e OUnsetSize)) = fst (sp_step1 (abs e) OUnsetSize).
+Proof.
+  intros. cbn [step1 fst]. unfold do_unset_size. go. reflexivity.
+Qed.
+
+(* ---- mode *)
+Lemma KP_bits : forall n, Z.testbit AE_IFMT n && Z.testbit PERM_MASK n = false.
+Proof. intros. rewrite <- Z.land_spec. change (Z.land AE_IFMT PERM_MASK) with 0. apply Z.bits_0. Qed.
+Lemma KorP_bits : forall n, Z.testbit AE_IFMT n || Z.testbit PERM_MASK n = Z.testbit (Z.ones 32) n.
+Proof. intros. rewrite <- Z.lor_spec. reflexivity. Qed.
+
+Ltac bitwise n :=
+  apply Z.bits_inj'; intros n ?; repeat rewrite ?Z.land_spec, ?Z.lor_spec.
+
+Lemma mode_perm_K : forall m x, Z.land AE_IFMT (Z.lor (Z.land m AE_IFMT) (Z.land PERM_MASK x)) = Z.land AE_IFMT m.
+Proof. intros. bitwise n. pose proof (KP_bits n). destruct (Z.testbit AE_IFMT n), (Z.testbit PERM_MASK n), (Z.testbit m n), (Z.testbit x n); try discriminate; reflexivity. Qed.
+Lemma mode_perm_P : forall m x, Z.land PERM_MASK (Z.lor (Z.land m AE_IFMT) (Z.land PERM_MASK x)) = Z.land PERM_MASK x.
+Proof. intros. bitwise n. pose proof (KP_bits n). destruct (Z.testbit AE_IFMT n), (Z.testbit PERM_MASK n), (Z.testbit m n), (Z.testbit x n); try discriminate; reflexivity. Qed.
+Lemma mode_ft_K : forall m x, Z.land AE_IFMT (Z.lor (Z.land m PERM_MASK) (Z.land AE_IFMT x)) = Z.land AE_IFMT x.
+Proof. intros. bitwise n. pose proof (KP_bits n). destruct (Z.testbit AE_IFMT n), (Z.testbit PERM_MASK n), (Z.testbit m n), (Z.testbit x n); try discriminate; reflexivity. Qed.
+Lemma mode_ft_P : forall m x, Z.land PERM_MASK (Z.lor (Z.land m PERM_MASK) (Z.land AE_IFMT x)) = Z.land PERM_MASK m.
+Proof. intros. bitwise n. pose proof (KP_bits n). destruct (Z.testbit AE_IFMT n), (Z.testbit PERM_MASK n), (Z.testbit m n), (Z.testbit x n); try discriminate; reflexivity. Qed.
+
+Lemma A_mode : forall e m, abs (fst (step1 false e (OMode m))) = fst (sp_step1 (abs e) (OMode m)).
+Proof. intros. cbn [step1 fst]. go. reflexivity. Qed.
+Lemma A_perm : forall e m, abs (fst (step1 false e (OPerm m))) = fst (sp_step1 (abs e) (OPerm m)).
+Proof. intros. cbn [step1 fst]. go. rewrite mode_perm_K, mode_perm_P. reflexivity. Qed.
+Lemma A_filetype : forall e m, abs (fst (step1 false e (OFiletype m))) = fst (sp_step1 (abs e) (OFiletype m)).
+Proof. intros. cbn [step1 fst]. go. rewrite mode_ft_K, mode_ft_P. reflexivity. Qed.
+
+Lemma acl_bits : forall sh p n, 0 <= n ->
+  Z.testbit (Z.shiftl (Z.land p 7) sh) n = Z.testbit p (n - sh) && Z.testbit (Z.shiftl 7 sh) n.
+Proof. intros. rewrite !Z.shiftl_spec by lia. rewrite Z.land_spec. reflexivity. Qed.
+
+Lemma acl_S_facts : forall t n, let S := Z.shiftl 7 (acl_shift t) in
+  Z.testbit AE_IFMT n && Z.testbit S n = false /\ (Z.testbit S n = true -> Z.testbit PERM_MASK n = true) /\
+  (Z.testbit AE_IFMT n = true -> Z.testbit (Z.ones 32) n = true) /\
+  (Z.testbit PERM_MASK n = true -> Z.testbit (Z.ones 32) n = true).
+Proof.
+  intros t n S. repeat split.
+  - rewrite <- Z.land_spec. destruct t; change (Z.land AE_IFMT S) with 0; apply Z.bits_0.
+  - intros H. assert (E : Z.land S PERM_MASK = S) by (destruct t; reflexivity).
+    rewrite <- E in H. rewrite Z.land_spec in H. apply andb_true_iff in H. tauto.
+  - intros H. rewrite <- KorP_bits. rewrite H. reflexivity.
+  - intros H. rewrite <- KorP_bits. rewrite H. apply orb_true_r.
+Qed.
+
+Lemma acl_K : forall t m p, let sh := acl_shift t in
+  Z.land AE_IFMT (Z.lor (Z.land m (Z.land (Z.lnot (Z.shiftl 7 sh)) (Z.ones 32))) (Z.shiftl (Z.land p 7) sh)) = Z.land AE_IFMT m.
+Proof.
+  intros. bitwise n. rewrite Z.lnot_spec, acl_bits by assumption.
+  destruct (acl_S_facts t n) as (F1 & F2 & F3 & F4). fold sh in F1, F2.
+  destruct (Z.testbit AE_IFMT n), (Z.testbit (Z.shiftl 7 sh) n), (Z.testbit m n), (Z.testbit p (n - sh)), (Z.testbit (Z.ones 32) n);
+    cbn in *; try discriminate; try reflexivity; try (specialize (F3 eq_refl); discriminate).
+Qed.
+
+Lemma acl_P : forall t m p, let sh := acl_shift t in
+  Z.land PERM_MASK (Z.lor (Z.land m (Z.land (Z.lnot (Z.shiftl 7 sh)) (Z.ones 32))) (Z.shiftl (Z.land p 7) sh)) =
+  Z.lor (Z.land (Z.land PERM_MASK m) (Z.land (Z.lnot (Z.shiftl 7 sh)) (Z.ones 32))) (Z.shiftl (Z.land p 7) sh).
+Proof.
+  intros. bitwise n. rewrite Z.lnot_spec, acl_bits by assumption.
+  destruct (acl_S_facts t n) as (F1 & F2 & F3 & F4). fold sh in F1, F2.
+  destruct (Z.testbit PERM_MASK n), (Z.testbit (Z.shiftl 7 sh) n), (Z.testbit m n), (Z.testbit p (n - sh)), (Z.testbit (Z.ones 32) n);
+    cbn in *; try discriminate; try reflexivity; try (specialize (F2 eq_refl); discriminate).
+Qed.
+
+Lemma A_acl : forall e t p, abs (fst (step1 false e (OAclSpecial t p))) = fst (sp_step1 (abs e) (OAclSpecial t p)).
+Proof. intros. cbn [step1 fst]. go. rewrite acl_K, acl_P. reflexivity. Qed.
+
+(* ---- dev *)
+Lemma A_dev : forall e w p v, abs (fst (step1 false e (ODev w p v))) = fst (sp_step1 (abs e) (ODev w p v)).
+Proof.
+  intros. cbn [step1 fst]. destruct w, p; go; unfold split, g_major, g_minor; proj; try reflexivity.
+  all: try (destruct (bd (dev e)); proj; reflexivity).
+  all: try (destruct (bd (rdev e)); proj; reflexivity).
+Qed.
+
+Lemma A_symtype : forall e v, abs (fst (step1 false e (OSymtype v))) = fst (sp_step1 (abs e) (OSymtype v)).
+Proof. intros. cbn [step1 fst]. go. reflexivity. Qed.
+
+Lemma A_enc : forall e v, abs (fst (step1 false e (OEncData v))) = fst (sp_step1 (abs e) (OEncData v)) /\
+                          abs (fst (step1 false e (OEncMeta v))) = fst (sp_step1 (abs e) (OEncMeta v)).
+Proof.
+  intros. cbn [step1 fst]. split; go; destruct (char_nonzero v); proj;
+  change (Z.lor (enc e) 1) with (fl_set (enc e) 1); change (Z.lor (enc e) 2) with (fl_set (enc e) 2);
+  change (Z.land (enc e) (Z.lnot 1)) with (fl_clr (enc e) 1); change (Z.land (enc e) (Z.lnot 2)) with (fl_clr (enc e) 2);
+  flags; reflexivity.
+Qed.
+
+Lemma A_str : forall e f v a, abs (fst (step1 false e (OStr f v a))) = fst (sp_step1 (abs e) (OStr f v a)) /\
+                              snd (step1 false e (OStr f v a)) = snd (sp_step1 (abs e) (OStr f v a)).
+Proof.
+  intros. cbn [step1]. split; destruct f; try destruct a; go; reflexivity.
+Qed.
+
+Lemma A_sparse : forall e off len, Inv e -> abs (fst (step1 false e (OSparseAdd off len))) = fst (sp_step1 (abs e) (OSparseAdd off len)).
+Proof. intros e off len I. cbn [step1 fst]. go. rewrite (s64_id (size (idv e))) by (pose proof (inv_size e I); lia). reflexivity. Qed.
+
+Lemma A_misc : forall e n v, abs (fst (step1 false e OSparseClear)) = fst (sp_step1 (abs e) OSparseClear) /\
+  abs (fst (step1 false e (OXattrAdd n v))) = fst (sp_step1 (abs e) (OXattrAdd n v)) /\
+  abs (fst (step1 false e OXattrClear)) = fst (sp_step1 (abs e) OXattrClear) /\
+  abs (fst (step1 false e OClear)) = fst (sp_step1 (abs e) OClear).
+Proof. intros. cbn [step1 fst]. repeat split; go; reflexivity. Qed.
+
+Ltac lk1 Hh Hs := go; rewrite ?Hh, ?Hs; cbn [andb orb negb is_some upd_ret fst snd]; proj.
+Ltac lk Hh Hs := lk1 Hh Hs; lk1 Hh Hs.
+
+Lemma A_link : forall e f v a, Inv e ->
+  abs (fst (step1 false e (OLink f v a))) = fst (sp_step1 (abs e) (OLink f v a)) /\
+  snd (step1 false e (OLink f v a)) = snd (sp_step1 (abs e) (OLink f v a)).
+Proof.
+  intros e f v a I.
+  pose proof (inv_excl e I) as X. pose proof (inv_none e I) as N. unfold has in X, N.
+  destruct (fl_tst (aset e) AE_SET_HARDLINK) eqn:Hh, (fl_tst (aset e) AE_SET_SYMLINK) eqn:Hs; cbn in X; try discriminate;
+  cbn [step1]; (destruct f; [destruct (is_vset v) eqn:Ev | idtac | idtac ]); destruct a; split;
+  unfold do_hardlink, do_symlink, do_link; rewrite ?Ev; lk Hh Hs; rewrite ?Ev; try reflexivity.
+Qed.
+
+Lemma A_linkto : forall e f, Inv e -> abs (fst (step1 false e (OLinkTo f))) = fst (sp_step1 (abs e) (OLinkTo f)).
+Proof.
+  intros e f I.
+  pose proof (inv_excl e I) as X. pose proof (inv_none e I) as N. unfold has in X, N.
+  destruct (fl_tst (aset e) AE_SET_HARDLINK) eqn:Hh, (fl_tst (aset e) AE_SET_SYMLINK) eqn:Hs; cbn in X; try discriminate;
+  try (pose proof (N eq_refl eq_refl) as N');
+  cbn [step1 fst]; destruct f; unfold do_link_to; lk Hh Hs; try rewrite N'; try reflexivity.
+Qed.
+
+
+
+Ltac invf I :=
+  unfold stat_compute, rdev_guard; unf; proj; flags;
+  first [ exact (inv_excl _ I) | exact (inv_none _ I) | exact (inv_dev _ I) | exact (inv_rdev _ I)
+        | exact (inv_rdev0 _ I) | exact (inv_mode _ I) | exact (inv_size _ I) | exact (inv_ino _ I)
+        | exact (inv_stat _ I) | (intros; discriminate) | reflexivity | apply u64_range | idtac ].
+
+Lemma Inv_init : Inv init.
+Proof. constructor; try reflexivity; try (cbn; lia); intros; discriminate. Qed.
+
+Lemma Inv_time : forall e k t ns, Inv e -> Inv (fst (step1 false e (OTime k t ns))).
+Proof.
+  intros e k t ns I. cbn [step1 fst]. unfold do_set_time. rewrite fix_ns_floor.
+  destruct k; constructor; invf I.
+Qed.
+
+Lemma Inv_unset_time : forall e k, Inv e -> Inv (fst (step1 false e (OUnsetTime k))).
+Proof.
+  intros e k I. cbn [step1 fst]. unfold do_unset_time, do_set_time. rewrite fix_ns_floor.
+  destruct k; constructor; invf I.
+Qed.
+
+Lemma Inv_id : forall e k v, Inv e -> Inv (fst (step1 false e (OId k v))).
+Proof.
+  intros e k v I. cbn [step1 fst]. destruct k; constructor; invf I.
+  all: rewrite ?clamp0_max, ?max0_s64_u64; pose proof (s64_range v); try lia.
+Qed.
+
+Lemma Inv_unset_size : forall e, Inv e -> Inv (fst (step1 false e OUnsetSize)).
+Proof. intros e I. cbn [step1 fst]. unfold do_unset_size. constructor; invf I. all: cbn; lia. Qed.
+
+Lemma ones_u32 : forall m, Z.land (u32 m) (Z.ones 32) = u32 m.
+Proof. intros. rewrite Z.land_ones by lia. unfold u32. apply Z.mod_mod. lia. Qed.
+
+Lemma KP_ones : forall n, (Z.testbit AE_IFMT n = true -> Z.testbit (Z.ones 32) n = true) /\
+                         (Z.testbit PERM_MASK n = true -> Z.testbit (Z.ones 32) n = true).
+Proof. intros. rewrite <- KorP_bits. split; intros ->; [reflexivity | apply orb_true_r]. Qed.
+
+Lemma mode_perm_ones : forall m x, Z.land (Z.lor (Z.land m AE_IFMT) (Z.land PERM_MASK x)) (Z.ones 32) = Z.lor (Z.land m AE_IFMT) (Z.land PERM_MASK x).
+Proof. intros. bitwise n. destruct (KP_ones n) as [F1 F2].
+  destruct (Z.testbit AE_IFMT n), (Z.testbit PERM_MASK n), (Z.testbit m n), (Z.testbit x n), (Z.testbit (Z.ones 32) n); cbn in *;
+  try reflexivity; try (specialize (F1 eq_refl); discriminate); try (specialize (F2 eq_refl); discriminate). Qed.
+Lemma mode_ft_ones : forall m x, Z.land (Z.lor (Z.land m PERM_MASK) (Z.land AE_IFMT x)) (Z.ones 32) = Z.lor (Z.land m PERM_MASK) (Z.land AE_IFMT x).
+Proof. intros. bitwise n. destruct (KP_ones n) as [F1 F2].
+  destruct (Z.testbit AE_IFMT n), (Z.testbit PERM_MASK n), (Z.testbit m n), (Z.testbit x n), (Z.testbit (Z.ones 32) n); cbn in *;
+  try reflexivity; try (specialize (F1 eq_refl); discriminate); try (specialize (F2 eq_refl); discriminate). Qed.
+Lemma acl_ones : forall t m p, let sh := acl_shift t in Z.land m (Z.ones 32) = m ->
+  Z.land (Z.lor (Z.land m (Z.land (Z.lnot (Z.shiftl 7 sh)) (Z.ones 32))) (Z.shiftl (Z.land p 7) sh)) (Z.ones 32) =
+  Z.lor (Z.land m (Z.land (Z.lnot (Z.shiftl 7 sh)) (Z.ones 32))) (Z.shiftl (Z.land p 7) sh).
+Proof.
+  intros t m p sh Hm. bitwise n. rewrite Z.lnot_spec, acl_bits by assumption.
+  destruct (acl_S_facts t n) as (F1 & F2 & F3 & F4). fold sh in F1, F2.
+  destruct (Z.testbit PERM_MASK n), (Z.testbit (Z.shiftl 7 sh) n), (Z.testbit m n), (Z.testbit p (n - sh)), (Z.testbit (Z.ones 32) n);
+    cbn in *; try discriminate; try reflexivity; try (specialize (F2 eq_refl); discriminate); try (specialize (F4 eq_refl); discriminate).
+Qed.
+
+
+Ltac invg I :=
+  pose proof (inv_dev _ I); pose proof (inv_rdev _ I); pose proof (inv_size _ I); pose proof (inv_ino _ I);
+  constructor; invf I; try lia.
+
+Lemma Inv_mode : forall e m, Inv e -> Inv (fst (step1 false e (OMode m))) /\ Inv (fst (step1 false e (OPerm m))) /\ Inv (fst (step1 false e (OFiletype m))).
+Proof.
+  intros e m I. cbn [step1 fst]. split; [|split]; invg I.
+  - apply ones_u32.
+  - apply mode_perm_ones.
+  - apply mode_ft_ones.
+Qed.
+
+Lemma Inv_acl : forall e t p, Inv e -> Inv (fst (step1 false e (OAclSpecial t p))).
+Proof. intros e t p I. cbn [step1 fst]. invg I. apply acl_ones. exact (inv_mode _ I). Qed.
+
+Lemma Inv_dev : forall e w p v, Inv e -> Inv (fst (step1 false e (ODev w p v))).
+Proof.
+  intros e w p v I. cbn [step1 fst]. destruct w, p; invg I.
+  all: unfold split; destruct (bd (dev e)); proj; lia.
+Qed.
+
+Lemma Inv_small : forall e v, Inv e -> Inv (fst (step1 false e (OSymtype v))) /\ Inv (fst (step1 false e (OEncData v))) /\
+  Inv (fst (step1 false e (OEncMeta v))) /\ Inv (fst (step1 false e OSparseClear)) /\ Inv (fst (step1 false e OXattrClear)) /\
+  Inv (fst (step1 false e OClear)).
+Proof.
+  intros e v I. cbn [step1 fst]. repeat apply conj; try exact Inv_init; invg I.
+Qed.
+
+
+Lemma Inv_str : forall e f v a n x off len, Inv e -> Inv (fst (step1 false e (OStr f v a))) /\
+  Inv (fst (step1 false e (OXattrAdd n x))) /\ Inv (fst (step1 false e (OSparseAdd off len))).
+Proof.
+  intros e f v a n x off len I. cbn [step1 fst]. split; [|split].
+  - destruct f; try destruct a; cbn [do_str fst]; try exact I; invg I.
+  - invg I.
+  - invg I.
+Qed.
+
+Ltac lki Hh Hs := unfold stat_compute, rdev_guard; unf; proj; flags; rewrite ?Hh, ?Hs; cbn [andb orb negb is_some upd_ret fst snd]; proj.
+
+Lemma Inv_link : forall e f v a, Inv e -> Inv (fst (step1 false e (OLink f v a))).
+Proof.
+  intros e f v a I.
+  pose proof (inv_excl e I) as X. pose proof (inv_none e I) as N. unfold has in X, N.
+  pose proof (inv_dev _ I); pose proof (inv_rdev _ I); pose proof (inv_size _ I); pose proof (inv_ino _ I).
+  destruct (fl_tst (aset e) AE_SET_HARDLINK) eqn:Hh, (fl_tst (aset e) AE_SET_SYMLINK) eqn:Hs; cbn in X; try discriminate;
+  cbn [step1]; (destruct f; [destruct (is_vset v) eqn:Ev | idtac | idtac ]); destruct a;
+  unfold do_hardlink, do_symlink, do_link; rewrite ?Ev; lki Hh Hs; lki Hh Hs; try exact I.
+  all: constructor; lki Hh Hs; lki Hh Hs; try lia; try reflexivity; try (intros; discriminate);
+       first [ exact (inv_rdev0 _ I) | exact (inv_mode _ I) | exact (inv_stat _ I) | idtac ].
+Qed.
+
+Lemma Inv_linkto : forall e f, Inv e -> Inv (fst (step1 false e (OLinkTo f))).
+Proof.
+  intros e f I.
+  pose proof (inv_excl e I) as X. pose proof (inv_none e I) as N. unfold has in X, N.
+  pose proof (inv_dev _ I); pose proof (inv_rdev _ I); pose proof (inv_size _ I); pose proof (inv_ino _ I).
+  destruct (fl_tst (aset e) AE_SET_HARDLINK) eqn:Hh, (fl_tst (aset e) AE_SET_SYMLINK) eqn:Hs; cbn in X; try discriminate;
+  cbn [step1 fst]; destruct f; unfold do_link_to; lki Hh Hs; lki Hh Hs; try exact I.
+  all: constructor; lki Hh Hs; lki Hh Hs; try lia; try reflexivity; try (intros; discriminate);
+       first [ exact (inv_rdev0 _ I) | exact (inv_mode _ I) | exact (inv_stat _ I) | idtac ].
+Qed.
+
